@@ -171,6 +171,8 @@ def run(ctx):
     for f, creates in proto:
         check_function(ctx, f, creates)
     position_rule(ctx, 'C13-POS')
+    from .C11 import failsafe_rule
+    failsafe_rule(ctx, 'C13-FAILSAFE')      # an index updater that refuses a key has recorded (for the caller's undo) whatever it took out before
     # ---------------------------------------------------------------- ORDER
     n = 0
     for f in repo.rule_funcs():
